@@ -213,7 +213,7 @@ def coq_regen():
     sys.path.insert(0, os.path.join(VERIF, "translators"))
     import importlib
     res = {}
-    for mod in ("t_params", "t_leaf", "t_abi"):
+    for mod in ("t_params", "t_leaf", "t_abi", "t_shape"):
         p = os.path.join(VERIF, "translators", mod + ".py")
         if not os.path.exists(p):
             continue
@@ -399,7 +399,7 @@ class Check:
         vo = os.path.join(COQ, tgt)
         if os.path.exists(vo):
             os.remove(vo)
-        genfiles = {"t_params": "Gen_Params", "t_leaf": "Gen_Leaf", "t_abi": "Gen_Abi"}
+        genfiles = {"t_params": "Gen_Params", "t_leaf": "Gen_Leaf", "t_abi": "Gen_Abi", "t_shape": "Gen_Shape"}
         for mod, g in gen.items():
             if isinstance(g, dict) and g.get("raised") and any(genfiles.get(mod, "?") in f for f in files):
                 self.broken("translator:" + mod, "the model this property is proved about could not be regenerated from the source: " + "; ".join(g["errors"]))
